@@ -922,6 +922,13 @@ impl Property for C08 {
             o.fail = c08_acks_before_a_fatal_packet((h % 4) as u8, (h / 4 % 3) as u8);
             o.class("acknowledgements-owed-before-a-fatal-packet");
         }
+        if o.fail.is_none() {
+            // inbound QoS 2 exchanges open across a reconnection / resumption: one PUBREC per
+            // re-delivery on the new connection, and nothing before it
+            let h = case_hash(case);
+            o.fail = c09_across_reconnection((h % 3) as u8, (h / 3 % 3) as u8, 1 + (h / 9 % 3) as usize, (h / 27 % 5) as u8).filter(|f| f.sig.starts_with("C08/") || f.sig.starts_with("PANIC/"));
+            o.class("inbound-exchanges-across-a-reconnection");
+        }
         o
     }
 }
@@ -1026,6 +1033,17 @@ fn c09_prologue() -> Vec<Ev> {
     ]
 }
 
+/// n inbound QoS 2 exchanges carried through (PUBLISH, PUBREL), on identifiers 3..9
+fn c09_completed_exchanges(n: usize) -> Vec<Ev> {
+    let mut v = Vec::with_capacity(2 * n);
+    for i in 0..n {
+        let pid = 3 + (i % 7) as u16;
+        v.push(Ev::In(Inbound::Publish { qos: 2, dup: false, retain: false, pid, target: Target::Sub(0), payload_len: 0, props: 0 }));
+        v.push(Ev::In(Inbound::Pubrel { pid, known: false }));
+    }
+    v
+}
+
 impl Property for C09 {
     const ID: &'static str = "C09";
     const RULE: &'static str = "sequences over {PUBLISH(QoS 2, identifier in {1..6,257,258,65535}, DUP 0/1), PUBREL(identifier)} to a live subscription, interleaved with other traffic (inbound QoS 0/1, the client's own QoS 1/2 publishes, subscribes, unsubscribes and their acknowledgements using the same identifier values); exhaustive over a 6-symbol alphabet on 2 identifiers to a bounded depth. The model's awaiting-PUBREL set decides which PUBLISH is a re-delivery. Non-trivial = a re-delivery before PUBREL and a reuse of the identifier after PUBREL both occur";
@@ -1047,9 +1065,11 @@ impl Property for C09 {
         .boxed();
         // the server's Receive Maximum (small here) limits the client's publishes only: any number
         // of inbound exchanges may be open
-        (vec(ev, 1..tier.pick(30, 80)), rm_small(), prologue_variant())
-            .prop_map(|(evs, receive_max, prologue)| {
+        // sometimes after a long history of completed exchanges
+        (vec(ev, 1..tier.pick(30, 80)), rm_small(), prologue_variant(), prop_oneof![7 => Just(0usize), 1 => 100usize..400])
+            .prop_map(|(evs, receive_max, prologue, completed)| {
                 let mut events = c09_prologue();
+                events.extend(c09_completed_exchanges(completed));
                 events.extend(evs);
                 Scenario { receive_max, max_packet_size: None, id_offset: 0, prologue: prologue & 127, events }
             })
@@ -1091,11 +1111,25 @@ impl Property for C09 {
             s.receive_max = Some(1);
             s
         };
+        // the same alphabet after n completed exchanges
+        let depth = tier.pick(3, 4);
+        let after_history = [1usize, 2, 31, 32, 63, 64, 126, 127, 128, 129, 255, 256, 511, 1023].into_iter().flat_map({
+            let alphabet = alphabet.clone();
+            move |n| {
+                sequences(alphabet.clone(), depth, worker, workers).map(move |evs| {
+                    let mut events = c09_prologue();
+                    events.extend(c09_completed_exchanges(n));
+                    events.extend(evs);
+                    Scenario { receive_max: None, max_packet_size: None, id_offset: 0, prologue: 0, events }
+                })
+            }
+        });
         Box::new(
             sequences(alphabet.clone(), tier.pick(6, 8), worker, workers)
                 .map(mk)
                 .chain(sequences(both, tier.pick(7, 9), worker, workers).map(mk))
-                .chain(sequences(alphabet, tier.pick(5, 7), worker, workers).map(small_r)),
+                .chain(sequences(alphabet, tier.pick(5, 7), worker, workers).map(small_r))
+                .chain(after_history),
         )
     }
 
@@ -1289,6 +1323,14 @@ pub fn c09_across_reconnection(expiry1: u8, second: u8, open: usize, lost_by: u8
     }
     w.sync_wire();
     let before = w.pkts.len();
+    // nothing has arrived on the new connection yet: an acknowledgement written now answers nothing
+    let connect_at = w.pkts.iter().rposition(|p| matches!(&p.decoded, Ok(rc::Packet::Connect(_)))).unwrap_or(0);
+    if let Some(p) = w.pkts[connect_at..].iter().find(|p| matches!(&p.decoded, Ok(rc::Packet::Puback(_) | rc::Packet::Pubrec(_) | rc::Packet::Pubcomp(_)))) {
+        return Some(Failure {
+            sig: "C08/unsolicited-acknowledgement/on-the-resumed-connection".into(),
+            msg: format!("the client wrote a packet starting with {:#04x} on the new connection before the broker had sent anything but the CONNACK ({open} inbound QoS 2 exchange(s) open at the loss, second={second}, lost_by={lost_by})", p.first),
+        });
+    }
     for k in 0..open {
         w.tick();
         w.reader.feed(msg(10 + k as u16, true, &format!("first-{k}")));
